@@ -148,11 +148,13 @@ class HybridCache(_CacheBase):
             otherwise None.
 
         """
-        if key not in self._cache_dict:
-            return None
         with self._cache_lock:
+            # Look the key up under the lock: another process may evict it
+            # between an unlocked membership test and the reads below.
+            if key not in self._cache_dict:
+                return None
             self._access_counts[key] += 1
-        value = self._cache_dict[key]
+            value = self._cache_dict[key]
         if self._allow_cloudpickle and self.shared:
             value = cloudpickle.loads(value)
         return value
@@ -299,9 +301,11 @@ class LRUCache(_CacheBase):
 
     def get(self, key: Hashable) -> Any:
         """Get a value from the cache by key."""
-        if key not in self._cache_dict:
-            return None
         with self._cache_lock:
+            # Look the key up under the lock: another process may evict it
+            # between an unlocked membership test and the reads below.
+            if key not in self._cache_dict:
+                return None
             value = self._cache_dict[key]
             # Move key to back of queue
             self._cache_queue.remove(key)
